@@ -488,6 +488,81 @@ theorem percentileOf_nonneg (xs : List Nat) (pct : Rat) (hp : 0 ≤ pct) (t : Ra
 
 end TrackpyV.Find
 
+namespace TrackpyV.Find
+open Locate (addPos subPos padOK)
+
+/-! ## `grey_dilation` of an embedding, in terms of the content only -/
+
+/-- what `grey_dilation(precise=False)` finds on ANY embedding of `content` with enough padding,
+in content coordinates: the argument checks that do not depend on the canvas, the threshold of the
+content, and the content's own maxima (no margin) in `np.where` order -/
+def gdContent (content : Image) (sep : List Rat) (pct : Rat) (margin : List Nat) : Option (List Pos) :=
+  if decide (0 < content.shape.length) && decide (sep.length = content.shape.length)
+      && decide (margin.length = content.shape.length)
+      && sep.all (fun s => decide (0 < s) && decide (1 ≤ boxSize content.shape.length s)) then
+    match percentileThr content pct with
+    | none => some []
+    | some thr =>
+      some (candidates content (sep.map (boxSize content.shape.length)) thr
+        (List.replicate content.shape.length 0))
+  else none
+
+theorem gdContent_inImage {content : Image} {sep : List Rat} {pct : Rat} {margin : List Nat}
+    {C : List Pos} (h : gdContent content sep pct margin = some C) (u : Pos) (hu : u ∈ C) :
+    InImage content.shape u := by
+  unfold gdContent at h
+  split at h
+  · rename_i hw
+    simp only [Bool.and_eq_true, decide_eq_true_eq] at hw
+    split at h
+    · injection h with h; subst h; simp at hu
+    · injection h with h; subst h
+      exact ((mem_candidates _ _ _ _ u (by simp [hw.1.1.2]) (by simp)).mp hu).1
+  · cases h
+
+/-- **`grey_dilation` of an embedding = the content's result moved by the offset** (as an
+`Option (List Pos)`: refusal, black image and the ORDER of the maxima included) -/
+theorem greyDilation_embed_eq (content big : Image) (off : List Nat) (h : IsEmbed content off big)
+    (hsz : big.data.size = big.shape.prod) (sep : List Rat) (pct : Rat) (hpct : 0 ≤ pct)
+    (margin : List Nat) (hp : padOK big.shape off content.shape margin = true) :
+    greyDilation big sep pct (some margin) false =
+      (gdContent content sep pct margin).map (List.map (fun u => addPos u off)) := by
+  have hNl := (fits_length h.fits).2
+  have hml := ((padOK_iff_getD _ _ _ _).mp hp).2.2.1
+  unfold greyDilation greyDilationK gdContent
+  simp only [Option.getD_some]
+  have hwf : wellFormed big sep margin =
+      (decide (0 < content.shape.length) && decide (sep.length = content.shape.length)
+      && decide (margin.length = content.shape.length)
+      && sep.all (fun s => decide (0 < s) && decide (1 ≤ boxSize content.shape.length s))) := by
+    unfold wellFormed
+    rw [hNl, foldl_one_prod]
+    simp [hsz]
+  rw [hwf]
+  by_cases hw : (decide (0 < content.shape.length) && decide (sep.length = content.shape.length)
+      && decide (margin.length = content.shape.length)
+      && sep.all (fun s => decide (0 < s) && decide (1 ≤ boxSize content.shape.length s))) = true
+  · rw [hw]
+    simp only [Bool.not_true, Bool.false_eq_true, if_false, if_true]
+    have hsl : sep.length = content.shape.length := by
+      simp only [Bool.and_eq_true, decide_eq_true_eq] at hw
+      exact hw.1.1.2
+    rw [show percentileThr big pct = percentileThr content pct from percentileOf_perm h.nonzero_perm pct]
+    cases hthr : percentileThr content pct with
+    | none => rfl
+    | some thr =>
+      have h0 : 0 ≤ thr := percentileOf_nonneg _ pct hpct thr hthr
+      simp only [Option.map_some]
+      rw [hNl, candidates_embed_eq content big off h _ margin thr h0 (by simp [hsl]) hml hp]
+  · have hw' : (decide (0 < content.shape.length) && decide (sep.length = content.shape.length)
+      && decide (margin.length = content.shape.length)
+      && sep.all (fun s => decide (0 < s) && decide (1 ≤ boxSize content.shape.length s))) = false := by
+      simpa using hw
+    rw [hw']
+    rfl
+
+end TrackpyV.Find
+
 namespace TrackpyV.Refine
 open Find (InImage flatIdx IsEmbed Fits)
 open Locate (addPos)
